@@ -304,6 +304,90 @@ def execute(case, prefix: Sequence[int], line_level: bool) -> Dict[str, Any]:
     return {"problems": problems, "points": sched.points, "choices": sched.choices, "timeouts": sched.timeouts}
 
 
+def reader_sessions(_=None) -> Dict[str, Any]:
+    """the read-back half of the statement for USER-defined types: quicklogger files (two segments of one recording and a file of
+    a second recording) are written by the package's own formatter and then loaded one after the other - by one QLReader and by
+    fresh ones - in a process whose own registry holds the core definitions only. Every load yields every message."""
+    import contextlib
+    import io
+    import pyrtma
+    import pyrtma.message as pm
+    import pyrtma.context as pc
+    import pyrtma.core_defs as cd
+    from pyrtma.message import Message
+    from pyrtma.header import MessageHeader
+    from pyrtma.data_logger.formatters.quicklogger import QLFormatter
+    from pyrtma.utils.quicklogger_reader import QLReader
+    from .. import valx
+
+    import copy
+
+    problems: List[Dict[str, Any]] = []
+    d = core.scratch_dir("c17r")
+    defs0 = ctx0 = None
+    old_tmp = tempfile.tempdir
+    tempfile.tempdir = d
+    n = 0
+    try:
+        mod = valx.load()
+        defs0, ctx0 = pm._get_msg_defs(), copy.deepcopy(pc.get_context())
+        valx.compile_defs(valx.yaml_text(), "rig_defs", d, python=True)  # the definitions file the reader is pointed at
+        defs_path = os.path.join(d, "rig_defs.py")
+        classes = [mod.MDF_VAL2, mod.MDF_VHD, mod.MDF_VAL3]
+        files = []
+        count = 0
+        for fi, nmsgs in enumerate((3, 4, 2)):
+            path = os.path.join(d, f"seg_{fi:04d}.bin")
+            msgs = []
+            with open(path, "wb") as fd:
+                fmt = QLFormatter(fd)
+                for k in range(nmsgs):
+                    count += 1
+                    data = classes[(fi + k) % len(classes)]()
+                    h = MessageHeader()
+                    h.msg_type, h.msg_count, h.send_time, h.src_mod_id = data.type_id, count, float(count), 12
+                    h.num_data_bytes, h.version = data.type_size, data.type_hash
+                    msgs.append(Message(h, data))
+                fmt.write(msgs[:-1])
+                fmt.finalize(msgs[-1:])
+                with contextlib.suppress(Exception):
+                    fmt.data_tmp.close()
+            files.append((path, [(bytes(m.header), bytes(m.data)) for m in msgs]))
+        # the reading process knows the core definitions only (what an offline analysis script starts with)
+        core_ids = {v.type_id for v in vars(cd).values() if isinstance(v, type) and hasattr(v, "type_id")}
+        pm._set_msg_defs({k: v for k, v in defs0.items() if k in core_ids})
+        import copy
+
+        ctx_core = copy.deepcopy(ctx0)
+        for table, prefix in ((ctx_core.MDF, "MDF_"), (ctx_core.MT, "MT_"), (ctx_core.MID, "MID_"), (ctx_core.SDF, ""), (ctx_core.constants, ""), (ctx_core.typedefs, "")):
+            for k in [k for k in table if not hasattr(cd, prefix + k)]:
+                del table[k]
+        pc._set_context(ctx_core)
+        sys.modules.pop(os.path.splitext(os.path.basename(defs_path))[0], None)
+        for session in ("one reader", "fresh readers", "one reader, files in reverse"):
+            rd = QLReader()
+            order = files if "reverse" not in session else files[::-1]
+            for path, want in order + order[:1]:
+                if session == "fresh readers":
+                    rd = QLReader()
+                n += 1
+                try:
+                    with contextlib.redirect_stdout(io.StringIO()):
+                        rd.load(path, defs_path)
+                    got = [(bytes(m.header), bytes(m.data)) for m in rd.messages]
+                    if got != want or rd.skipped:
+                        problems.append({"kind": "reader-session", "session": session, "file": os.path.basename(path), "read": len(got), "written": len(want), "skipped": rd.skipped})
+                except Exception as e:
+                    problems.append({"kind": "reader-session", "session": session, "file": os.path.basename(path), "exc": f"{type(e).__name__}: {str(e)[:140]}"})
+    finally:
+        if defs0 is not None:
+            pm._set_msg_defs(defs0)
+            pc._set_context(ctx0)
+        tempfile.tempdir = old_tmp
+        core.rmtree(d)
+    return {"problems": problems, "loads": n}
+
+
 def verify(res, handed, fmt, base) -> List[Dict[str, Any]]:
     import pyrtma.core_defs as cd
 
@@ -569,6 +653,11 @@ def run(tier: str) -> int:
             chk.violation(f"C17:{p['kind']}:{r['mode']}", f"{p} in script {list(ops)} config={config} formatter={fmt} schedule={_compact(choices)}",
                           {"module": "vf.checks.c17", "case": [list(ops), config, fmt], "choices": choices, "line_level": r["mode"] == "g2"},
                           size=len(ops) * 1000 + sum(1 for c in choices if c) * 10 + len(choices) // 50)
+    rs = reader_sessions()
+    execs += rs["loads"]
+    chk.count("reader_loads", rs["loads"])
+    for p in rs["problems"]:
+        chk.violation(f"C17:{p['kind']}:{p['session']}", f"{p}", {"module": "vf.checks.c17", "reader_sessions": True}, size=1)
     chk.count("driver_cases", len(items))
     chk.count("context_switches_explored", nswitch)
     chk.sample({"script": ["start", "flush", "early", "stop"], "config": "two", "formatter": "raw", "schedule_prefix": [0, 0, 0, 1, 0, 1]})
@@ -583,6 +672,12 @@ def _compact(ch):
 
 
 def replay(case) -> int:
+    if case.get("reader_sessions"):
+        r = reader_sessions()
+        for p in r["problems"]:
+            print("  PROBLEM:", p)
+        print("reproduced" if r["problems"] else "NOT reproduced")
+        return 1 if r["problems"] else 0
     ops, config, fmt = case["case"]
     c = (tuple(ops), config, fmt)
     r1 = execute(c, case["choices"], case.get("line_level", False))
